@@ -180,7 +180,9 @@ CLAIMED = {
              "touched exactly where a coordinate's derivative vanishes; C08_arc_candidate_angles / _axis: the angles Arc.bbox collects are "
              "those; C08_arc_pointAtT_is_den ties the evaluator the driver runs to that denotation), and so is the analytic part over the reals "
              "(C08_arc_between_candidates: between two parameters with no critical parameter strictly inside, the coordinate stays between "
-             "its two end values - intermediate value theorem for the derivative's sign, mean value theorem for monotonicity). Not proved: "
+             "its two end values - intermediate value theorem for the derivative's sign, mean value theorem for monotonicity; C08_arc_box_from_candidates: any finite list holding both ends of the sweep and every critical "
+             "parameter strictly inside it gives, as min/max over the listed points, a box containing the point at every parameter of the "
+             "sweep - the hypotheses are what Arc.bbox sets out to collect). Not proved: "
              "that the nine k-shifted candidates the code converts through angle_inv (degrees, theta, delta) enumerate every critical "
              "parameter inside a partial sweep, and cubics with a leading coefficient strictly inside the threshold: the transcribed "
              "algorithms (Model/BBox.lean) are compared with the code, and a dense-sampling + ternary-refinement oracle checks "
